@@ -9,27 +9,39 @@
 (***************************************************************************)
 EXTENDS Stream, StreamParams, TLC, Json
 
-Seqs(S, n) == UNION {[1..m -> S] : m \in 0..n}
-
 NoWr == [k |-> 0, kind |-> "none"]
 NoRd == [line |-> 1, mid |-> FALSE, on |-> FALSE]
 
+\* The log is built line by line (so that simulation reaches long sequences without enumerating a huge set), then the
+\* environment (final newline, bar, one fault) is chosen and the run starts.
+VARIABLE phase      \* "build" | "run"
+
 Init ==
-  /\ input \in Seqs(SKinds, SMaxLen)
-  /\ finalNL \in BOOLEAN
-  /\ barOn \in SBar
-  /\ wr \in {NoWr} \cup {[k |-> k, kind |-> kd] : k \in 1..(SMaxLen + 1), kd \in SWrKinds \ {"none"}}
-  /\ rd \in {NoRd} \cup (IF SRdOn THEN {[line |-> l, mid |-> m, on |-> TRUE] : l \in 1..(SMaxLen + 1), m \in BOOLEAN} ELSE {})
-  /\ rd.line <= Len(input) + 1
-  /\ wr.k <= Len(input) + 1
-  /\ ~(wr.kind # "none" /\ rd.on)             \* one fault per run (each fault position with every input)
+  /\ phase = "build" /\ input = <<>> /\ finalNL = FALSE /\ barOn = FALSE /\ wr = NoWr /\ rd = NoRd
   /\ StreamInit
 
-Next == StreamNext
-Spec == Init /\ [][Next]_vars /\ WF_vars(Next)
+AddLine ==
+  /\ phase = "build" /\ Len(input) < SMaxLen
+  /\ \E k \in SKinds : input' = Append(input, k)
+  /\ UNCHANGED <<phase, finalNL, barOn, wr, rd, pos, cur, out, tail, nwrites, barCur, rdHit, faulted, status, cause>>
+
+Start ==
+  /\ phase = "build" /\ phase' = "run"
+  /\ finalNL' \in BOOLEAN
+  /\ barOn' \in SBar
+  /\ wr' \in {NoWr} \cup {[k |-> k, kind |-> kd] : k \in 1..(Len(input) + 1), kd \in SWrKinds \ {"none"}}
+  /\ rd' \in {NoRd} \cup (IF SRdOn THEN {[line |-> l, mid |-> m, on |-> TRUE] : l \in 1..(Len(input) + 1), m \in BOOLEAN} ELSE {})
+  /\ ~(wr'.kind # "none" /\ rd'.on)             \* one fault per run (each fault position with every input)
+  /\ UNCHANGED <<input, pos, cur, out, tail, nwrites, barCur, rdHit, faulted, status, cause>>
+  /\ EnvOK'
+
+Next == AddLine \/ Start \/ (phase = "run" /\ StreamNext /\ UNCHANGED phase)
+Spec == Init /\ [][Next]_<<vars, phase>> /\ WF_<<vars, phase>>(Next)
 
 Rec == [input |-> input, finalNL |-> finalNL, bar |-> barOn, wr |-> wr, rd |-> rd,
         out |-> out, tail |-> tail, status |-> status, cause |-> cause, nwrites |-> nwrites, barCur |-> barCur,
         faulted |-> faulted]
-EmitInv == status # "running" => PrintT(ToJson(Rec))
+EmitInv == phase = "run" /\ status # "running" => PrintT(ToJson(Rec))
+\* building is bounded, so every behaviour starts its run and ends it
+TerminatesMC == <>(phase = "run" /\ status # "running")
 =============================================================================
